@@ -1,13 +1,15 @@
 /-
 C01 — ghost history of the LTS: the observable events (`Spec.Ev`) that a step of the model produces, stamped
 where the harness stamps them on the real code, and the history-indexed reachability relation `ReachableH`.
-The history lives OUTSIDE the state (`St`, `step` are unchanged); `emit` is computed from the pre-state and
-the label. Each event is stamped at the step that is its linearization point (`ended` at the queue send / drop,
+The history lives OUTSIDE the state; `emit` is computed from the pre-state and the label. Every Shutdown call
+(the one that wins `stopOnce` and the ones that wait in `Once.Do`) stamps `sdCalled` / `sdReturned`, `OnEnd` of an
+unsampled span stamps `endedUnsampled`. Each event is stamped at the step that is its linearization point (`ended` at the queue send / drop,
 `ffCalled`/`sdCalled` at the call step, `ffReturned`/`sdReturned` at the step that decides the return value,
 `exportStart`/`exportEnd` at ExportSpans entry / return, the exporter's Shutdown as one step); the harness
 stamps `…Called` before the call and `…Returned`/`ended` after the return, i.e. calls no later and returns no
-earlier than here. This file also holds the list-counting lemmas behind `Spec.delivered` and two small invariants
-that the simulation with the scanner (`HistorySim.lean`) needs on top of `Inv`.
+earlier than here. This file also holds the list-counting lemmas behind `Spec.delivered` and the small invariants
+(`InvS`, `InvG`, `InvU`) that the simulation with the scanner (`HistorySim.lean`) and the S6 clauses need on top
+of `Inv`.
 -/
 import Otel.C01.Lemmas3
 import Otel.C01.Spec
@@ -23,8 +25,9 @@ def ffPending (fid : Nat) (ffs : List FF) : Bool :=
 /-- the events of label `l` taken from state `s`, assuming the step is enabled -/
 def emitRaw (s : St) : Lbl → List Ev
   | .send id => [.ended id]                                   -- End returned (sent or dropped)
+  | .endUnsampled id => [.endedUnsampled id]                  -- End of an unsampled span returned
   | .wExportStart => if s.batch = [] then [] else [.exportStart s.batch]
-  | .exportEnd => [.exportEnd]
+  | .exportEnd _ => [.exportEnd]
   | .ffCall fid => [.ffCalled fid]
   | .ffCheck fid => if s.stopped then [.ffReturned fid true] else []        -- early return nil [F22]
   | .ffStopWins fid => [.ffReturned fid true]                               -- early return nil [F22]
@@ -38,6 +41,8 @@ def emitRaw (s : St) : Lbl → List Ev
   | .sdCall => [.sdCalled]
   | .sdExporterShutdown => [.expShutdownStart, .expShutdownEnd]
   | .sdReturnOk => [.sdReturned true]
+  | .sdCallLate _ => [.sdCalled]                                            -- a further Shutdown call
+  | .sdReturnLate _ => [.sdReturned true]                                   -- … returns nil once `stopOnce` is done
   | _ => []
 
 /-- the observable events produced by taking label `l` in state `s`: nothing unless the step is enabled -/
@@ -158,6 +163,33 @@ theorem invG_reachable {cap maxB : Nat} {blocking : Bool} {s : St} (hr : Reachab
   induction hr with
   | init => exact invG_init cap maxB blocking
   | step l _ hs ih => exact stepG _ _ l ih hs
+
+/-! ### small invariant: unsampled span ids never enter the processor
+
+`OnEnd` of an unsampled span touches no shared state, and span ids are unique: an id recorded in the ghost
+`unsampled` is never accepted, hence (conservation) never queued, batched, exported or counted as dropped. -/
+
+def InvU (s : St) : Prop := ∀ id ∈ s.unsampled, id ∉ s.accepted
+
+theorem invU_init (cap maxB : Nat) (blocking : Bool) : InvU (init cap maxB blocking) := by
+  simp [InvU, init]
+
+theorem stepU (s s' : St) (l : Lbl) (h : InvU s) (hs : step s l = some s') : InvU s' := by
+  unfold InvU at *
+  cases l <;> simp only [step] at hs
+  all_goals (
+    repeat' (split at hs)
+    all_goals (try (simp at hs))
+    all_goals (try subst hs)
+    all_goals (first
+      | exact h
+      | (simp_all <;> grind)))
+
+theorem invU_reachable {cap maxB : Nat} {blocking : Bool} {s : St} (hr : Reachable cap maxB blocking s) :
+    InvU s := by
+  induction hr with
+  | init => exact invU_init cap maxB blocking
+  | step l _ hs ih => exact stepU _ _ l ih hs
 
 /-! ### counting lemmas behind `Spec.delivered` -/
 
